@@ -250,7 +250,7 @@ pub fn exec(plan: &Plan, trials: &mut Trials) -> RunReport {
             return rep;
         }
         Caught::Panic(p) => {
-            rep.viols.push(Viol { property: "HARNESS".into(), class: format!("live-panic:{}", normalise(&p)), detail: p, trial: 0 });
+            rep.viols.push(Viol { property: "HARNESS".into(), class: format!("live-{}", panic_class(&p)), detail: p, trial: 0 });
             return rep;
         }
         Caught::Budget => return rep,
@@ -333,7 +333,7 @@ pub fn exec(plan: &Plan, trials: &mut Trials) -> RunReport {
                                     break;
                                 }
                                 Caught::Panic(p) => {
-                                    rep.viols.push(Viol { property: "C01".into(), class: format!("double-crash:panic:{}", normalise(&p)), detail: format!("{what}: {p}"), trial });
+                                    rep.viols.push(Viol { property: "C01".into(), class: format!("double-crash:{}", panic_class(&p)), detail: format!("{what}: {p}"), trial });
                                     break;
                                 }
                                 Caught::Budget => {}
@@ -343,7 +343,7 @@ pub fn exec(plan: &Plan, trials: &mut Trials) -> RunReport {
                     v
                 }
                 Caught::Ok(Err(e)) => Some(("recovery-error".to_string(), e)),
-                Caught::Panic(p) => Some((format!("panic:{}", normalise(&p)), p)),
+                Caught::Panic(p) => Some((panic_class(&p), p)),
                 Caught::Budget => None,
             };
             if let Some((class, detail)) = verdict {
